@@ -750,6 +750,11 @@ func (w *Writer) writeSummarySection() ([]*SummaryOffset, error) {
 
 // Close the writer by closing the active chunk and writing the summary section.
 func (w *Writer) Close() error {
+	if w.closed {
+		// the file has its data end, summary, footer and closing magic (or the attempt to
+		// write them failed and was reported): a further Close adds nothing to it.
+		return nil
+	}
 	if w.opts.Chunked {
 		err := w.flushActiveChunk()
 		if err != nil {
